@@ -5,6 +5,7 @@ CONSTANTS
   Node <- MCNode
   Delegates <- MCDelegates
   NsStates <- MCNsStates
+  IdStates <- MCIdStates
 INIT Init
 NEXT Next
-INVARIANTS OnlyStrangersRemoved ProtectedUntouched WholeRepoOnlyWithoutSigrefs NoSigrefsRemovesRepo ErrorIsNoop ReportedIsRemoved UnsignedKept Idempotent EmitInv
+INVARIANTS OnlyStrangersRemoved ProtectedUntouched WholeRepoOnlyWithoutSigrefs NoSigrefsRemovesRepo UnreadableIsError ErrorIsNoop ReportedIsRemoved UnsignedKept Idempotent EmitInv
